@@ -30,15 +30,15 @@ func genC15(t *rapid.T) C15Case {
 	if total > 0 {
 		c.Mems = append(c.Mems, rapid.IntRange(1, total).Draw(t, "mid"))
 	}
-	switch rapid.IntRange(0, 2).Draw(t, "big") {
-	case 0:
+	// an unbounded limit is always tried: completeness is the clause most changes break
+	if rapid.Bool().Draw(t, "big") {
 		c.Mems = append(c.Mems, total+rapid.IntRange(0, 5).Draw(t, "over")+func() int {
 			if total == 0 {
 				return 1
 			}
 			return 0
 		}())
-	case 1:
+	} else {
 		c.Mems = append(c.Mems, 1<<20)
 	}
 	return c
